@@ -78,7 +78,9 @@ def version() -> str:  # pragma: no cover
 
 @cache
 def get_source_lines(filepath: str) -> list[str]:
-    return Path(filepath).read_text("utf8").splitlines()
+    # Only "\n" ends a line as far as line numbers are concerned ("\r\n" and "\r" have been
+    # translated already). `str.splitlines()` would also split on form feeds, "\x85", etc.
+    return Path(filepath).read_text("utf8").split("\n")
 
 
 def is_ignored_via_comment(error: Error) -> bool:
